@@ -7,3 +7,4 @@ python3 tools/extract.py /repo lean/TeosVerif/Gen lean/TeosVerif/GenBaseline > /
 (cd lean && lake build TeosVerif teos_model)
 cp /repo/Cargo.lock harness/Cargo.lock
 (cd harness && cargo build --offline)
+(cd harness && cargo build --offline --locked --manifest-path /repo/Cargo.toml -p watchtower-plugin --bin watchtower-client --target-dir "$PWD/target-plugin")
